@@ -151,7 +151,16 @@ pub fn case(rng: &mut Rng) -> String {
                 write!(out, " | {}", enc::hex(&s)).unwrap();
             } else {
                 write!(out, "{} ", if dot { "dot" } else { "display" }).unwrap();
-                let t: AffTree<2> = rand_tree(rng, &tp);
+                let mut t: AffTree<2> = rand_tree(rng, &tp);
+                if rng.chance(1, 8) {
+                    // a second `add_root`: the former tree stays in the arena, disconnected (documented); both renderings
+                    // go over the arena, so all stored nodes *and their links* are still shown
+                    use affinitree::pwl::node::AffContent;
+                    let r = t.tree.add_root(AffContent::new(rand_aff(rng, tp.out_dim, n)));
+                    if rng.chance(1, 2) {
+                        let _ = t.add_child_node(r, 0, rand_aff(rng, tp.out_dim, n));
+                    }
+                }
                 enc::afftree(&mut out, &t);
                 let s = if dot { format!("{}", Dot::from(&t)) } else { format!("{}", t) };
                 write!(out, " | {}", enc::hex(&s)).unwrap();
